@@ -2,7 +2,7 @@
 which check catches it (meta.json 'caught_by').  Uses vf/mutrun.sh (scratch worktree /tmp/mut/cur at /repo's HEAD)."""
 import json, os, re, subprocess, sys
 ALSO = {"C01": ["C03", "C02"], "C04": ["C14"], "C05": ["C03", "C18"], "C02": ["C01"], "C03": ["C01"], "C06": ["C02"], "C07": ["C14"], "C09": ["C02"],
-        "C13": ["C02", "C18"], "C08": [], "C16": [], "C17": [], "C20": []}
+        "C13": ["C02", "C18"], "C14": ["C04"], "C08": [], "C16": [], "C17": [], "C20": []}
 ids = sys.argv[1:] or sorted(os.listdir("/verif/seeded"))
 for mid in ids:
     d = os.path.join("/verif/seeded", mid)
